@@ -40,6 +40,29 @@ LIB_SOURCES = [
     "Compiler/src/ParserGenerator/grammar.cpp", "Compiler/src/ParserGenerator/lrdea.cpp",
 ]
 HASH_DIRS = ["VM/include", "VM/src", "Compiler/include", "Compiler/src"]
+HASH_FILES = ["Compiler/CMakeLists.txt"]
+
+
+def flex_flags(root):
+    """the option flags of the flex command in Compiler/CMakeLists.txt (the 'flex found' build configuration),
+    without the output-file options; falls back to the flags documented there at the pinned commit"""
+    import re
+    default = ["--noline", "--nounistd"]
+    try:
+        txt = open(os.path.join(root, "Compiler/CMakeLists.txt")).read()
+    except OSError:
+        return default
+    m = re.search(r"COMMAND\s+flex\b(.*?)(?:DEPENDS|WORKING_DIRECTORY|\))", txt, re.S)
+    if not m:
+        return default
+    flags = []
+    for tok in re.findall(r'"[^"]*"|\S+', m.group(1)):
+        tok = tok.strip('"')
+        if tok.startswith("--outfile") or tok.startswith("--header-file") or tok.startswith("-o") or tok.endswith(".l"):
+            continue
+        if tok.startswith("-"):
+            flags.append(tok)
+    return flags or default
 DRIVERS = {"theo_drv": "drivers/theo_drv.cpp", "mt_drv": "drivers/mt_drv.cpp"}
 
 
@@ -64,6 +87,12 @@ def tree_hash(root=None):
                 with open(p, "rb") as fh:
                     h.update(fh.read())
                 h.update(b"\0")
+    for f in HASH_FILES:
+        try:
+            with open(os.path.join(root, f), "rb") as fh:
+                h.update(f.encode() + b"\0" + fh.read())
+        except OSError:
+            pass
     for name, src in sorted(DRIVERS.items()):
         with open(os.path.join(VERIF, src), "rb") as fh:
             h.update(fh.read())
@@ -128,8 +157,8 @@ def build(flavour, variant="generated", root=None, drivers=("theo_drv",), quiet=
                 raise BuildError("flex not available: 'generated' scanner variant cannot be built")
             gen_c = os.path.join(out, "lex.gen.c")
             if not os.path.exists(gen_c):
-                _run(["flex", "--outfile=" + gen_c, "--header-file=" + os.path.join(out, "lex.gen.h"),
-                      "--noline", "--nounistd", os.path.join(root, "Compiler/src/lexer.l")], cwd=out)
+                _run(["flex", "--outfile=" + gen_c, "--header-file=" + os.path.join(out, "lex.gen.h")] + flex_flags(root)
+                     + [os.path.join(root, "Compiler/src/lexer.l")], cwd=out)
             lex_src = gen_c
         else:
             lex_src = os.path.join(root, "Compiler/src/lex.yy.c")
@@ -171,8 +200,7 @@ def scanner_files_identical(root=None):
     os.makedirs(os.path.join(out, "src"), exist_ok=True)
     os.makedirs(os.path.join(out, "include"), exist_ok=True)
     shutil.copy(os.path.join(root, "Compiler/src/lexer.l"), os.path.join(out, "src/lexer.l"))
-    _run(["flex", "--outfile=./src/lex.yy.c", "--header-file=./include/lex.yy.h", "--noline",
-          "--nounistd", "./src/lexer.l"], cwd=out)
+    _run(["flex", "--outfile=./src/lex.yy.c", "--header-file=./include/lex.yy.h"] + flex_flags(root) + ["./src/lexer.l"], cwd=out)
     a = open(os.path.join(out, "src/lex.yy.c"), "rb").read()
     b = open(os.path.join(root, "Compiler/src/lex.yy.c"), "rb").read()
     return a == b
